@@ -1,20 +1,24 @@
 /-
   C02 — One addressing scheme: flatten, lookup, search and JSON pointers agree.
 
-  Proved here (all documents, no alphabet restriction needed):
+  `Valid` = constructible through the API; `SafeKeys` = every key is non-empty and free of
+  '.', '[' and ']' (the property's "no path metacharacters").
+
+  Proved:
     * the flattened view has exactly one entry per scalar position and carries exactly the
-      document's scalars, in traversal order;
+      document's scalars, in traversal order (all documents);
+    * lookup_flatten  : every flattened (path, leaf) is found by `lookup` under that path;
+    * pointer_flatten : the JSON-pointer translation of the path evaluates to that leaf;
+    * parsePath_steps : props.ParsePath has one segment per addressing step;
     * Search is the filter of the flattened view;
-    * rebuilding from (path, leaf) pairs always yields a valid document and the pair inserted
-      last is found by lookup under its path (the step lemma of the rebuild argument).
-  Stated, NOT yet proved (kept visible; the tie carries them on every run — harness clauses
-  "lookup(flattened path) is that very leaf", "pointer(…)", "props.ParsePath …", "rebuild(any order)…"):
-    lookup_flatten  : d.Valid → SafeKeys d → (p, v) ∈ flatten d → lookup d p = some (.leaf v)
-    pointer_flatten : … → evalTokens (.cont d) (pointerTokens (propsParsePath p)) = some (.leaf v)
-    parsePath_steps : … → (propsParsePath p).length = stepCount p
-    rebuild_perm    : ItemsHaveScalars d → σ ~ flatten d → flatten (rebuild σ) ~ flatten d
+    * rebuilding from (path, leaf) pairs always yields a valid document, the pair inserted last
+      resolves, and insertions at key-divergent paths do not disturb each other.
+  Stated, NOT yet proved (kept visible; carried by the tie on every run — harness clause
+  "rebuild(any order) gives the same flattened view", all permutations for <= 5 leaves):
+    rebuild_perm : ItemsHaveScalars d → σ ~ flatten d → flatten (rebuild σ) ~ flatten d
 -/
 import YtkProofs.Addr
+import YtkProofs.PointerPaths
 
 namespace Ytk.C02
 
@@ -25,6 +29,22 @@ theorem flatten_length (d : AMap Node) : (flatten d).length = Node.scalarCount (
 /-- the flattened values are exactly the document's scalars (nothing dropped, added or reordered) -/
 theorem flatten_values (d : AMap Node) : (flatten d).map (·.2) = Node.leaves (.cont d) := by
   simpa [flatten, Node.leaves] using flattenKvs_values d ""
+
+/-- Lookup of a flattened path resolves to that very leaf. -/
+theorem lookup_flatten (d : AMap Node) (hv : (Node.cont d).Valid) (hs : (Node.cont d).SafeKeys)
+    (p : String) (v : Scalar) (h : (p, v) ∈ flatten d) : lookup d p = some (.leaf v) :=
+  lookup_flatten_aux d hv hs p v h
+
+/-- The JSON-pointer translation of a flattened path evaluates to the same leaf. -/
+theorem pointer_flatten (d : AMap Node) (hv : (Node.cont d).Valid) (hs : (Node.cont d).SafeKeys)
+    (p : String) (v : Scalar) (h : (p, v) ∈ flatten d) :
+    evalTokens (.cont d) (pointerTokens (propsParsePath p)) = some (.leaf v) :=
+  pointer_flatten_aux d hv hs p v h
+
+/-- props.ParsePath has one segment per addressing step of a flattened path. -/
+theorem parsePath_steps (d : AMap Node) (hv : (Node.cont d).Valid) (hs : (Node.cont d).SafeKeys)
+    (p : String) (v : Scalar) (h : (p, v) ∈ flatten d) : (propsParsePath p).length = stepCount p :=
+  parsePath_steps_aux d hv hs p v h
 
 /-- Search returns exactly the flattened paths whose value satisfies the predicate -/
 theorem search_spec (f : Scalar → Bool) (d : AMap Node) :
